@@ -1,6 +1,7 @@
 import NibabelModel.Model.C12
 import NibabelModel.Generated.C12FileTypes
 import NibabelModel.Lemmas.C12_Routes
+import NibabelModel.Lemmas.C12_Hist
 /-! Props/C12 — property theorems for C12 (all serialisation routes and accepted file names are
     equivalent).  Strings are lists of character codes; `stem` is ARBITRARY everywhere (any bytes:
     dots, spaces, `/`), `e'` is any case mix of a member's extension (`lower e' = lower e`), `z'` any
